@@ -19,7 +19,8 @@ def run(ctx):
     binp = bc.driver(ctx)
     vec = [v for v in vlib.read_ndjson(vlib.generate(ctx, "Bech32Gen")) if v["op"] == "bech32.Decode"]
     g = bc.run_ops(ctx, binp, vec, "g")
-    t = [e for e in bc.record(ctx, binp, 400 if q else 8000, "t") if e["op"] == "bech32.Decode"]
+    full = bc.record(ctx, binp, 400 if q else 8000, "t")
+    t = [e for e in full if e["op"] == "bech32.Decode"]
     for e in g:
         e["t"] = 1
     for e in t:
@@ -43,7 +44,7 @@ def run(ctx):
     vlib.call_history_model(ctx)
     vlib.call_histories(ctx, binp, t, ["bech32.Decode"], "Bech32Trace", "real Decode disagrees with the Bech32 specification")
     nbad = len(ctx.bad)
-    bc.judge(ctx, binp, g + t, "real Decode disagrees with the Bech32 specification (acceptance, outputs, re-encoding, offset range or panic)")
+    bc.judge(ctx, binp, g + t, "real Decode disagrees with the Bech32 specification (acceptance, outputs, re-encoding, offset range or panic)", history=g + full)
     if b32_bad and len(ctx.bad) > nbad:
         for e in b32_bad:
             ctx.bad.append(dict(event=e, reason="base32 regrouping differs from the specification's ToBase32 / FromBase32 (result, acceptance, count, offset range, buffers)"))
